@@ -89,3 +89,31 @@ theorem separated_pairs_ascending (out : List Seg) (hs : out.Pairwise Separated)
   exact separated_flatMap out hs ha
 
 end Coma.Proofs
+
+namespace Coma.Proofs
+open Coma Coma.Spec
+
+/-- every pair of a candidate joins real labels of the named maps -/
+theorem alignerAlign_labels_real (P : Params) (C : ChainCfg) (hP : GoodParams P) (ref qry : OMap) (peaks : List Int)
+    (rev : Bool) (it : Int) (hr : StrictAscending ref.positions) (hq : StrictAscending qry.positions)
+    (row : Row) (h : alignerAlign P C ref qry peaks rev it = .ok row) :
+    ∀ p ∈ row.pairs, p.r ∈ ref.labels false ∧ p.q ∈ qry.labels rev := by
+  intro p hp
+  have hacc := alignerAlign_accounted P C hP ref qry peaks rev it hr hq row h
+  simp only [Row.pairs, List.mem_flatMap] at hp
+  obtain ⟨s, hs, hps⟩ := hp
+  have hmem : APos.pair p ∈ s.items := by
+    simp only [Seg.pairs, List.mem_filterMap] at hps
+    obtain ⟨a, ha, hap⟩ := hps
+    cases a with
+    | pair p' => simp [APos.pair?] at hap; subst hap; exact ha
+    | uref r => simp [APos.pair?] at hap
+    | uqry q s => simp [APos.pair?] at hap
+  rcases hacc s hs with hnil | ⟨peak, _, it', _, hinf⟩
+  · rw [hnil] at hmem; cases hmem
+  · have hin : APos.pair p ∈ peakPositions P ref qry rev it' peak := hinf.subset hmem
+    have hqa : Ascending qry.positions := hq.imp (fun h => Int.le_of_lt h)
+    have hw := engine_within P.md ref qry peak (peak + qry.length) rev it' hqa p hin
+    exact ⟨(refWindow_sublist P.md ref peak (peak + qry.length)).subset hw.1, hw.2.1⟩
+
+end Coma.Proofs
